@@ -93,13 +93,25 @@ import numpy.lib._polynomial_impl as _PI
 _orig_trim_zeros = _PI.trim_zeros
 
 
+NO_TRIM = [False]   # harness option: keep possibly-zero symbolic leading coefficients (value-preserving
+                    # for +, *, deriv, integ and evaluation; used where only values matter)
+
+
 def _trim_zeros_seq(filt, trim='fb', axis=None):
     a = _np.asarray(filt)
     if a.dtype == object and a.ndim == 1 and trim.lower() == 'f' and axis is None:
         i = 0
         n = len(a)
-        while i < n and not (a[i] != 0):
+        while i < n - 1:
+            x = a[i]
+            if NO_TRIM[0] and _issym(x):
+                break
+            if x != 0:
+                break
             i += 1
+        else:
+            if n and not (NO_TRIM[0] and _issym(a[n - 1])) and not (a[n - 1] != 0):
+                i = n
         return filt[i:]
     return _orig_trim_zeros(filt, trim=trim, axis=axis)
 
